@@ -444,9 +444,25 @@ class Analyzer:
         ce0 = copy.deepcopy(ce)
         for k in ce0.store:
             ce0.store[k]["n"] = 0
+        # a second "other event": every collection full, every value different from E's defaults (so that whatever a member
+        # keeps from it is visible when E - possibly an empty event - is processed again)
+        ce1 = copy.deepcopy(ce)
+        for k in ce1.store:
+            ce1.store[k]["n"] = ce1.N
+            ce1.store[k]["present"] = True
+        from fractions import Fraction as _Fr
+        for name, (entries, els, rng) in list(ce1.tables.items()):
+            if rng == "Bool":
+                ce1.tables[name] = ({}, True if "?null" not in name else False, rng)
+            elif "#len" in name:
+                ce1.tables[name] = ({}, min(ce1.N, 2), rng)
+            elif rng == "Int":
+                ce1.tables[name] = ({}, 7, rng)
+            else:
+                ce1.tables[name] = ({}, _Fr(29, 4), rng)
         wd = self.scratch("replay")
         try:
-            res = compile_and_run(enc.pkg, enc.dm, [ce, ce0, ce, ce], dict(enc.event.strings), wd)
+            res = compile_and_run(enc.pkg, enc.dm, [ce, ce0, ce, ce, ce1, ce], dict(enc.event.strings), wd)
         except ReplayUnsupported as e:
             r.inconclusive.append((v.name, f"cannot replay: {e}"))
             v.status = "inconclusive"
@@ -458,10 +474,12 @@ class Analyzer:
             return
         evs = res["outcome"]["events"]
         rows = [e["rows"] for e in evs]
-        differs = len(evs) >= 3 and (rows[0] != rows[2] or (len(evs) > 3 and rows[2] != rows[3]) or any(e["fault"] for e in evs[1:]) != bool(evs[0]["fault"]) and False)
+        # a faulting event ends the job: only the events actually processed are compared (positions 0, 2, 3, 5 are E)
+        same_e = [rows[i] for i in (0, 2, 3, 5) if i < len(evs)]
+        differs = len(same_e) >= 2 and any(x != same_e[0] for x in same_e[1:])
         if differs:
             d = bundle_dir(self.prop, prog, v.name)
-            text = f"rows for the same event differ with history: first={rows[0]} after other events={rows[2:]}"
+            text = f"rows for the same event differ with history: first={rows[0]} after other events={same_e[1:]}"
             write_bundle(d, prog, enc.pkg, {"obligation": v.name, "text": text, "event": ce.to_json()})
             shutil.copy(wd / "driver.cxx", d / "driver.cxx")
             shutil.copytree(wd / "inc", d / "inc", dirs_exist_ok=True)
@@ -469,7 +487,7 @@ class Analyzer:
             v.detail = text
         else:
             v.status = "spurious"
-            v.detail = "pre-state of the inductive step not reproduced by a concrete history [E, E0, E, E]"
+            v.detail = "pre-state of the inductive step not reproduced by the concrete history [E, E0, E, E, E1, E]"
             r.spurious.append((v.name, v.detail))
             r.inconclusive.append((v.name, v.detail + " (the invariant may be too weak for this program)"))
         shutil.rmtree(wd, ignore_errors=True)
@@ -612,11 +630,13 @@ class Analyzer:
             v.status = "inconclusive"
             shutil.rmtree(wd, ignore_errors=True)
             return
-        if not rp["encoder_ok"] and enc.ctx.rf_terms and "fault prediction" not in rp["encoder_text"] and getattr(v, "tries", 0) < 3 \
+        abstracted = bool(enc.ctx.rf_terms) or any(str(k[0]).startswith("fn:") for k in enc.event.ufs)
+        if not rp["encoder_ok"] and abstracted and "fault prediction" not in rp["encoder_text"] and getattr(v, "tries", 0) < 3 \
                 and getattr(v, "query", None) is not None:
-            # binary32 rounding is an uninterpreted function constrained by relative-error axioms: a model may round a float
-            # sum differently from the machine (visible after cancellation).  That is the stated abstraction, not an encoder
-            # defect: the model is spurious - block it and ask again.
+            # binary32 rounding is an uninterpreted function constrained by relative-error axioms (a model may round a float
+            # sum differently from the machine, visible after cancellation) and library functions without an exact model are
+            # uninterpreted (a model may say pow(2, 0.5) = 7).  That is the stated abstraction, not an encoder defect: the model
+            # is spurious - block it and ask again.
             shutil.rmtree(wd, ignore_errors=True)
             blk = block_model(enc, v.model)
             if blk is not None:
@@ -633,9 +653,9 @@ class Analyzer:
                 v.detail = "only models that differ from machine float32 rounding (blocked): " + rp["encoder_text"][:300]
                 r.inconclusive.append((v.name, v.detail))
                 return
-        if not rp["encoder_ok"] and enc.ctx.rf_terms and "fault prediction" not in rp["encoder_text"]:
+        if not rp["encoder_ok"] and abstracted and "fault prediction" not in rp["encoder_text"]:
             v.status = "inconclusive"
-            v.detail = "float32 abstraction: solver models round differently from the machine: " + rp["encoder_text"][:300]
+            v.detail = "float32 / library-function abstraction: solver models differ from the machine: " + rp["encoder_text"][:300]
             r.inconclusive.append((v.name, v.detail))
             shutil.rmtree(wd, ignore_errors=True)
             return
